@@ -213,3 +213,11 @@ package ast
 //@   site strings.Split#1 requires arg0 == t.Task && arg1 == "*"                                                       [C15,C16]
 //@   site regexp.QuoteMeta#1 requires arg0 == names[$i]              -- every literal segment is quoted                [C15,C16]
 //@   site strings.Join#1 requires arg0 == names && arg1 == "(.*)"                                                      [C15,C16]
+
+// ---- C18: the ordered maps of variables, tasks and includes are used under their own mutex ----------------
+// Exceptions (stated, not proved): the iterators All/Keys/Values hand out lock-free iteration by design (their
+// callers own the map or iterate a Taskfile that is frozen after Setup), and Vars.Merge writes into a map
+// that its caller has just created or copied.
+//@ guarded_by Vars.om Vars.mutex except (*Vars).All (*Vars).Keys (*Vars).Values (*Vars).Merge                       [C18]
+//@ guarded_by Tasks.om Tasks.mutex except (*Tasks).All (*Tasks).Keys (*Tasks).Values                                [C18]
+//@ guarded_by Includes.om Includes.mutex except (*Includes).All (*Includes).Keys (*Includes).Values                 [C18]
